@@ -108,6 +108,8 @@ def _check_cli(cases):
             if exp["status"] == "empty":
                 header, rows = table.parse(text, "csv")
                 nums = [x for r in rows for x in r[-2:] if x not in ("nan", "")]
+                if "-acc" in v["argv"] + v["config"]:
+                    nums = [x for x in nums if _isnum(x) and float(x) != 0]      # envelope: the running sum of no data is 0
                 if status == "ok" and any(_isnum(x) for x in nums):
                     divs.append(("cli:number-from-empty-selection", "%s: selection leaves nothing but numbers were printed: %r" % (shown, clean[:200]), rep))
                 continue
